@@ -141,6 +141,8 @@ def keep(d, v, pid, needs, all_props=False, as_v=None, rnd=1):
 
 if __name__ == "__main__" and sys.argv[1] == "keep":
     sys.exit(keep(sys.argv[2], sys.argv[3], sys.argv[4], sys.argv[5]))
+if __name__ == "__main__" and sys.argv[1] == "keep5":     # round 5: variants a, b stored as i, j
+    sys.exit(keep(sys.argv[2], sys.argv[3], sys.argv[4], sys.argv[5], as_v={"a": "i", "b": "j"}[sys.argv[3]], rnd=5))
 if __name__ == "__main__" and sys.argv[1] == "keep4":     # round 4: variants a, b stored as g, h
     sys.exit(keep(sys.argv[2], sys.argv[3], sys.argv[4], sys.argv[5], as_v={"a": "g", "b": "h"}[sys.argv[3]], rnd=4))
 if __name__ == "__main__" and sys.argv[1] == "keep3":     # round 3: variants a, b stored as e, f
